@@ -1144,7 +1144,10 @@ def x11(ctx, R):
                         return ds[0].value
                 return e
             e0, e1, e2 = [local_value(x) for x in poss[0].value.elts]
-            okp = "curlineno" in norm(e0) and "curcolno" in norm(e1) and isinstance(e2, ast.Call) and call_name(e2) == "len"
+            from .c18 import position_source
+            raw = poss[0].value.elts
+            okp = (("curlineno" in norm(e0)) or position_source(ctx, R, h, raw[0]) == "line") and (
+                ("curcolno" in norm(e1)) or position_source(ctx, R, h, raw[1]) == "column") and isinstance(e2, ast.Call) and call_name(e2) == "len"
         from sa.template import template, Lit, Hole
 
         def line_prefixed(v):
@@ -1164,7 +1167,8 @@ def x11(ctx, R):
                 cn = call_name(c)
                 if cn == "format" and isinstance(c.func, ast.Attribute) and isinstance(c.func.value, ast.Constant) and template(c) is not None:
                     continue  # message building: fields match the arguments (else X9 reports it)
-                if cn not in ("curlineno", "curcolno", "len", "str"):
+                from .c18 import position_helpers
+                if cn not in ("len", "str") and cn not in position_helpers(R):
                     ctx.violation("X11", f, "handler-call:%s" % cn, "the handler calls %s, which may raise outside the funnel" % norm(c)[:50], node=c)
     last = f.node.body[-1]
     if isinstance(last, ast.Return) and const_value(ctx.program, f, last.value) is True:
@@ -1184,6 +1188,8 @@ def x11(ctx, R):
         t = norm(rets[0].value) if rets else ""
         if "count(b'\\n'" in t and ("+ 1" in t or "1 +" in t):
             ctx.holds("X11", "curlineno = 1 + count of newlines in a prefix of the input")
+        elif not any(isinstance(r_, ast.Raise) for r_ in walk_no_nested(ln.node)):
+            ctx.holds("X11", "curlineno is computed by %s (its value is rule Z2 of C18; it raises nothing of its own)" % t[:40])
         else:
             ctx.violation("X11", ln, "lineno-formula", "curlineno is %s, not 1 + number of newlines before the position" % t, node=ln.node)
 
